@@ -21,6 +21,8 @@ const FOREIGN: u16 = 1025;
 enum Kind {
     Idle,
     UserRead,
+    /// a user READ that brings its own ReadHandler: every fragment of its answer goes there
+    UserReadWithHandler,
     DirectOperate,
     Select,
     Operate,
@@ -152,6 +154,10 @@ impl C15 {
             match self.kind {
                 Kind::UserRead => {
                     sim.call("read", async move { a.read(ReadRequest::class_scan(Classes::class0())).await });
+                }
+                Kind::UserReadWithHandler => {
+                    let h = Box::new(crate::msim::Handler { log: sim.cb.clone(), tag: "custom:" });
+                    sim.call("read", async move { a.read_with_handler(ReadRequest::class_scan(Classes::class0()), h).await });
                 }
                 Kind::DirectOperate => {
                     sim.call("operate", async move { a.operate(CommandMode::DirectOperate, crob_headers()).await });
@@ -441,6 +447,21 @@ impl Scenario for C15 {
                         break;
                     }
                 }
+                // a READ with its own handler: the fragments of its answer go to that handler, everything
+                // unsolicited to the association's
+                if self.kind == Kind::UserReadWithHandler {
+                    if let (Some(MCb::BeginFragment { read_type, ctrl, .. }), Some(_)) = (begins.first(), &sent) {
+                        let unsolicited = *ctrl & app::UNS != 0;
+                        if read_type.starts_with("custom:") == unsolicited {
+                            res.violation = Some(Violation::new(
+                                "C15.A3",
+                                format!("fragment-delivered-to-the-wrong-handler:{}", short(ev)),
+                                format!("fragment {ctrl:02X} ({}) delivered as {read_type}", if unsolicited { "unsolicited" } else { "answer to read_with_handler" }),
+                            ));
+                            break;
+                        }
+                    }
+                }
                 accepted_total += 1;
             }
             // (2) confirm ledger
@@ -550,7 +571,7 @@ fn out_kind(sent: &Option<Vec<u8>>, ev: &Ev) -> String {
 
 fn scenarios(tier: &str) -> Vec<C15> {
     let d = if tier == "quick" { 3 } else { 4 };
-    [Kind::Idle, Kind::UserRead, Kind::DirectOperate, Kind::Select, Kind::Operate, Kind::AutoDisableUnsol, Kind::Integrity, Kind::FileInfo]
+    [Kind::Idle, Kind::UserRead, Kind::UserReadWithHandler, Kind::DirectOperate, Kind::Select, Kind::Operate, Kind::AutoDisableUnsol, Kind::Integrity, Kind::FileInfo]
         .into_iter()
         .map(|kind| C15 { kind, depth: d, alphabet: alphabet() })
         .collect()
